@@ -308,7 +308,7 @@ pub fn check_case(rep: &mut Report, p: &Ivs, seed: u64, thorough: bool) {
 
 pub fn run(p: &Params, rep: &mut Report) {
     let mut rng = p.rng(11);
-    let n = p.size(400, 20_000);
+    let n = p.size(6000, 80_000);
     for i in 0..n {
         let ivs = gen_intervals(&mut rng, if i % 5 == 0 { 14 } else { 6 });
         let seed = rng.next();
